@@ -39,6 +39,22 @@ type loopInfo struct {
 	// filled while executing
 	measures []string
 	oldAtHead *State
+	framed   []string
+}
+
+type deferRec struct {
+	ins      *ssa.Defer
+	owner    *Frame
+	args     []Val
+	fv       Val
+	bindings []Val
+}
+
+// unwindCtx: a panic is being unwound through this frame's deferred calls.
+type unwindCtx struct {
+	val       string // panic value (Iface term)
+	active    string // condition under which the panic is in flight
+	recovered string // condition under which recover() has been called
 }
 
 type writeRec struct {
@@ -73,6 +89,8 @@ type Frame struct {
 	defers  []*ssa.Defer
 	label   string // prefix for obligation names
 	parent  *Frame
+	unwinding *unwindCtx
+	mods    map[string][]string
 }
 
 func (f *Frame) pos(p token.Pos) token.Position {
@@ -307,6 +325,9 @@ func (f *Frame) loopHead(li *loopInfo, pc string, st *State, order []*ssa.BasicB
 		t := env.evalBool(inv.E)
 		vc.oblige("inv-entry", fmt.Sprintf("%s#inv:%s.%d/entry", f.obFn(), tag, i+1), pc, t, f.pos(loopPos(li)), inv.Src)
 	}
+	// 2b. automatic frame invariant: what the function's modifies clause protects stays protected
+	//     inside the loop (asserted on entry and at every back edge, assumed after the havoc)
+	frameOf := func(s *State, comp string) string { return f.frameFormula(s, comp) }
 	// 3. havoc
 	h := st.clone()
 	var cs []*ssa.Alloc
@@ -353,7 +374,14 @@ func (f *Frame) loopHead(li *loopInfo, pc string, st *State, order []*ssa.BasicB
 	}
 	for _, k := range havocked {
 		vc.assertCompWF(h.heap[k], k, h.alloc)
+		if ff := frameOf(st, k); ff != "" {
+			vc.oblige("frame", fmt.Sprintf("%s#frame:%s@%s/entry", f.obFn(), k, tag), pc, ff, f.pos(loopPos(li)), "frame of the enclosing function holds when the loop is entered ("+k+")")
+		}
+		if ff := frameOf(h, k); ff != "" {
+			vc.assume(pc, ff)
+		}
 	}
+	li.framed = havocked
 	// 4. assume invariants
 	env := f.env(h)
 	for _, inv := range li.spec.Invariants {
@@ -380,6 +408,11 @@ func (f *Frame) backEdge(li *loopInfo, cond string, st *State, from *ssa.BasicBl
 		t := env.evalBool(inv.E)
 		vc.oblige("inv-preserve", fmt.Sprintf("%s#inv:%s.%d/preserve", f.obFn(), tag, i+1), cond, t, f.pos(loopPos(li)), inv.Src)
 	}
+	for _, k := range li.framed {
+		if ff := f.frameFormula(st, k); ff != "" {
+			vc.oblige("frame", fmt.Sprintf("%s#frame:%s@%s/preserve", f.obFn(), k, tag), cond, ff, f.pos(loopPos(li)), "loop body respects the frame of the enclosing function ("+k+")")
+		}
+	}
 	if len(li.spec.Decreases) > 0 {
 		// lexicographic decrease, each component bounded below by 0
 		var lex string = "false"
@@ -403,6 +436,10 @@ func (f *Frame) conHints(anchor string) []Hint {
 
 func (f *Frame) applyHint(h Hint, pc string, st *State, where string) {
 	env := f.env(st)
+	if h.Kind == "set" || h.Kind == "setdef" {
+		f.execSet(h, pc, st, env)
+		return
+	}
 	t := env.evalBool(h.E)
 	switch h.Kind {
 	case "use":
@@ -545,7 +582,7 @@ func (vc *VC) typed(term string, t types.Type, depth int) string {
 			return fmt.Sprintf("(and (<= %s %s) (<= %s %s))", lo, term, term, hi)
 		}
 	case *types.Slice:
-		return fmt.Sprintf("(wf_slice %s)", term)
+		return fmt.Sprintf("(and (wf_slice %s) (<= (* (cap %s) %d) 281474976710656))", term, term, elemSize(u.Elem()))
 	case *types.Pointer, *types.Map:
 		return fmt.Sprintf("(>= %s 0)", term)
 	case *types.Struct:
@@ -905,7 +942,7 @@ func (f *Frame) instr(ins ssa.Instruction, pc string, st *State) string {
 		ln := f.val(t.Len).T
 		cp := f.val(t.Cap).T
 		et := t.Type().Underlying().(*types.Slice).Elem()
-		f.safe(pc, "make", t.Pos(), fmt.Sprintf("(and (<= 0 %s) (<= %s %s) (<= %s 281474976710656))", ln, ln, cp, cp), "make: 0 <= len <= cap <= 2^48 (runtime panics otherwise)")
+		f.safe(pc, "make", t.Pos(), fmt.Sprintf("(and (<= 0 %s) (<= %s %s) (<= (* %s %d) 281474976710656))", ln, ln, cp, cp, elemSize(et)), "make: 0 <= len <= cap and cap*elemsize <= 2^48 (the runtime panics otherwise)")
 		id := f.newRef(st, "make")
 		cn := elemComp(et)
 		c := vc.comp(st, cn, vc.elemCompSort(et), et)
@@ -968,10 +1005,22 @@ func (f *Frame) instr(ins ssa.Instruction, pc string, st *State) string {
 	case *ssa.Call:
 		return f.call(t, t.Common(), pc, st)
 	case *ssa.Defer:
-		f.defers = append(f.defers, t)
-		unsup("defer in %s (not yet supported)", shortFn(f.fn))
+		cc := t.Common()
+		rec := deferRec{ins: t, owner: f}
+		for _, a := range cc.Args {
+			rec.args = append(rec.args, f.val(a))
+		}
+		if _, ok := cc.Value.(*ssa.Builtin); !ok && (cc.IsInvoke() || cc.StaticCallee() == nil) {
+			rec.fv = f.val(cc.Value)
+		}
+		if mc, ok := cc.Value.(*ssa.MakeClosure); ok {
+			for _, b := range mc.Bindings {
+				rec.bindings = append(rec.bindings, f.val(b))
+			}
+		}
+		st.defers = append(st.defers[:len(st.defers):len(st.defers)], rec)
 	case *ssa.RunDefers:
-		// no defers registered (Defer is rejected above)
+		return f.runDefers(pc, st)
 	case *ssa.Range, *ssa.Next:
 		unsup("range over map/string in %s", shortFn(f.fn))
 	case *ssa.Go, *ssa.Send, *ssa.Select, *ssa.MakeChan:
@@ -1497,4 +1546,187 @@ func (f *Frame) obFn() string {
 		return f.vc.fnName
 	}
 	return f.vc.fnName + "/" + shortFn(f.fn)
+}
+
+// runDefers executes this frame's pending deferred calls (LIFO) on the normal path.
+func (f *Frame) runDefers(pc string, st *State) string {
+	for len(st.defers) > 0 && st.defers[len(st.defers)-1].owner == f {
+		d := st.defers[len(st.defers)-1]
+		st.defers = st.defers[:len(st.defers)-1]
+		pc = f.callPre(nil, d.ins.Common(), d.args, d.fv, d.bindings, pc, st)
+	}
+	return pc
+}
+
+// unwindPanics: every panicking exit of this frame first runs the frame's deferred calls; a deferred
+// function that calls recover() turns the exit into a normal return through the recover block (named
+// results keep their current values).
+func (f *Frame) unwindPanics() {
+	for rounds := 0; rounds < 4; rounds++ {
+		var pending []Exit
+		var keep []Exit
+		for _, e := range f.exits {
+			if e.Panic && len(e.St.defers) > 0 && e.St.defers[len(e.St.defers)-1].owner == f {
+				pending = append(pending, e)
+			} else {
+				keep = append(keep, e)
+			}
+		}
+		if len(pending) == 0 {
+			return
+		}
+		f.exits = keep
+		for _, e := range pending {
+			st := e.St.clone()
+			pv := f.termOf(e.PanicVal)
+			if pv == "" {
+				pv = f.vc.freshConst("panicval", "Iface")
+			}
+			u := &unwindCtx{val: pv, active: e.Cond, recovered: "false"}
+			f.unwinding = u
+			pc := e.Cond
+			for len(st.defers) > 0 && st.defers[len(st.defers)-1].owner == f {
+				d := st.defers[len(st.defers)-1]
+				st.defers = st.defers[:len(st.defers)-1]
+				pc = f.callPre(nil, d.ins.Common(), d.args, d.fv, d.bindings, pc, st)
+			}
+			f.unwinding = nil
+			if u.recovered != "false" {
+				rec := f.vc.define("recovered", "Bool", u.recovered)
+				// normal return: named results as they are now
+				var rs []Val
+				res := f.fn.Signature.Results()
+				for i := 0; i < res.Len(); i++ {
+					nm := res.At(i).Name()
+					var v Val
+					if a := f.cellByName(nm, st); nm != "" && nm != "_" && a != nil {
+						l := f.toLoc(f.vals[a])
+						v = Val{T: f.load(l, st, pc, e.Pos), Typ: res.At(i).Type()}
+					} else {
+						v = Val{T: f.vc.zero(res.At(i).Type()), Typ: res.At(i).Type()}
+					}
+					rs = append(rs, v)
+				}
+				f.exits = append(f.exits, Exit{Cond: and(pc, rec), St: st.clone(), Results: rs, Pos: e.Pos, RetIdx: -1, Desc: "return after recover()"})
+				pc = and(pc, not(rec))
+			}
+			if pc != "false" {
+				f.exits = append(f.exits, Exit{Panic: true, Cond: pc, St: st, PanicVal: e.PanicVal, Pos: e.Pos, Desc: e.Desc})
+			}
+		}
+	}
+}
+
+// pureApply: application of a pure callback, an uninterpreted function of the function value and the
+// arguments (one SMT function per signature and result index).
+func (vc *VC) pureApply(sig *types.Signature, idx int, fv string, args []string) string {
+	var sorts []string
+	sorts = append(sorts, "Fn")
+	for i := 0; i < sig.Params().Len(); i++ {
+		sorts = append(sorts, vc.sortOf(sig.Params().At(i).Type()))
+	}
+	name := fmt.Sprintf("cb%d %s", idx, types.TypeString(sig, qualifier))
+	fn := vc.declareFun(name, sorts, vc.sortOf(sig.Results().At(idx).Type()))
+	return "(" + fn + " " + strings.Join(append([]string{fv}, args...), " ") + ")"
+}
+
+// execSet performs a ghost assignment hint.
+func (f *Frame) execSet(h Hint, pc string, st *State, env *Env) {
+	vc := f.vc
+	sel, ok := h.L.(ESel)
+	if !ok || !strings.HasPrefix(sel.F, "$") {
+		unsup("set: only ghost fields can be assigned: %s", h.Src)
+	}
+	xv := env.eval(sel.X)
+	pt, ok := types.Unalias(xv.Typ).Underlying().(*types.Pointer)
+	if !ok {
+		unsup("set: %s is not a pointer", sel.X)
+	}
+	_, name, _ := structOf(pt.Elem())
+	gf := vc.prog.ghostField(pt.Elem(), sel.F)
+	if gf == nil {
+		unsup("set: no ghostfield %s on %s", sel.F, name)
+	}
+	srt := env.sortOfTypeString(gf.Sort)
+	cn := fieldComp(name, sel.F)
+	c := vc.comp(st, cn, "(Array Int "+srt+")")
+	var nv string
+	switch h.Kind {
+	case "set":
+		nv = env.eval(h.E).T
+	case "setdef":
+		// fresh value with a total pointwise definition:  forall x :: p[x] == body   (body must not mention p)
+		q, ok := h.E.(EForall)
+		if !ok || len(q.Vars) != 1 {
+			unsup("setdef needs 'p :: forall x T :: p[x] == body'")
+		}
+		eq, ok := q.Body.(EBinary)
+		if !ok || eq.Op != "==" {
+			unsup("setdef body must be an equation p[x] == e")
+		}
+		lhs, ok := eq.X.(EIndex)
+		if !ok || lhs.X.String() != h.Bind || lhs.I.String() != q.Vars[0].Name || strings.Contains(" "+eq.Y.String()+" ", h.Bind+"[") {
+			unsup("setdef body must have the form %s[%s] == e with e not mentioning %s", h.Bind, q.Vars[0].Name, h.Bind)
+		}
+		nv = vc.freshConst("gdef "+sel.F, srt)
+		denv := env.with(h.Bind, Val{T: nv, Sort: srt})
+		// trigger on the defined array
+		qq := q
+		qq.Triggers = [][]Expr{{lhs}}
+		vc.assert(denv.evalBool(qq))
+	}
+	f.noteCompSt(st, cn)
+	st.heap[cn] = vc.define("h", "(Array Int "+srt+")", fmt.Sprintf("(store %s %s %s)", c, xv.T, nv))
+	_ = pc
+}
+
+func (f *Frame) root() *Frame {
+	r := f
+	for r.parent != nil {
+		r = r.parent
+	}
+	return r
+}
+
+// frameFormula: objects that existed when the function under verification was entered and that its
+// modifies clause does not name still hold their entry value of component comp ("" if not applicable).
+func (f *Frame) frameFormula(s *State, comp string) string {
+	vc := f.vc
+	r := f.root()
+	if r.con == nil || r.entry == nil {
+		return ""
+	}
+	srt := vc.compSorts[comp]
+	if !strings.HasPrefix(srt, "(Array Int ") {
+		return ""
+	}
+	now, ok := s.heap[comp]
+	init := q("H0 " + comp)
+	if !ok || now == init {
+		return ""
+	}
+	if r.mods == nil {
+		env := r.envPost(r.entry, nil)
+		r.mods = r.modTargets(r.con, env)
+	}
+	if _, any := r.mods["*"]; any {
+		return ""
+	}
+	var excl []string
+	for _, m := range r.mods[comp] {
+		excl = append(excl, fmt.Sprintf("(not (= r %s))", m))
+	}
+	guard := and(append([]string{"(<= 0 r)", fmt.Sprintf("(< r %s)", r.entry.alloc)}, excl...)...)
+	return fmt.Sprintf("(forall ((r Int)) (! (=> %s (= (select %s r) (select %s r))) :pattern ((select %s r))))", guard, now, init, now)
+}
+
+var stdSizes = types.SizesFor("gc", "amd64")
+
+func elemSize(t types.Type) int64 {
+	defer func() { recover() }()
+	n := stdSizes.Sizeof(t)
+	if n < 1 {
+		n = 1
+	}
+	return n
 }
